@@ -476,6 +476,51 @@ impl Phase for SpelledNumbers {
     }
 }
 
+/// the first characters of a program: one-character and marker-like identifiers directly followed by every binary
+/// operator, without blanks (`#!=limit`, `r<"x"`, `_-1`): nothing at the start of a text is special
+struct FirstTokens;
+
+const FIRST_NAMES: [&str; 16] = ["#", "r", "b", "0x", "_", "\u{feff}x", "math::nan", "x'", "$", "@", "~", "`", "?", ":", "::", "%%"];
+
+impl Phase for FirstTokens {
+    fn name(&self) -> String {
+        "marker-like first identifiers x every binary operator, tight".into()
+    }
+    fn len(&self) -> u64 {
+        (FIRST_NAMES.len() * crate::refmodel::lex::BINOPS.len() * 6) as u64
+    }
+    fn exhaustive(&self) -> bool {
+        true
+    }
+    fn run(&mut self, idx: u64, r: &mut Rng, out: &mut Out) {
+        let mut i = idx as usize;
+        let shape = i % 6;
+        i /= 6;
+        let op = crate::refmodel::lex::BINOPS[i % crate::refmodel::lex::BINOPS.len()];
+        i /= crate::refmodel::lex::BINOPS.len();
+        let name = FIRST_NAMES[i];
+        if name == "%%" {
+            return;
+        }
+        let rhs = match shape % 3 {
+            0 => Ast::Read("limit".into()),
+            1 => Ast::Const(RV::Int(1)),
+            _ => Ast::Const(RV::Str("x".into())),
+        };
+        let mut ast = Ast::Bin(op, Box::new(Ast::Read(name.to_string())), Box::new(rhs));
+        if shape >= 3 {
+            ast = Ast::Chain(vec![ast, Ast::Read("second_line".into())]);
+        }
+        let toks = render_ast(&ast, Parens::Minimal, None, true);
+        let mut src = crate::gen::render_tight(&toks);
+        if shape >= 3 {
+            // the second statement on a line of its own
+            src = src.replacen(';', ";\n", 1);
+        }
+        check_rendered(out, &ast, src, r);
+    }
+}
+
 fn special_asts() -> Vec<Ast> {
     let rd = |n: &str| Ast::Read(n.to_string());
     let call = |f: &str, a: Ast| Ast::Call(f.to_string(), Box::new(a));
@@ -555,6 +600,7 @@ pub fn phases(cfg: &Cfg) -> Vec<Box<dyn Phase>> {
         Box::new(Random {
             n: cfg.n(250_000, 10_000_000),
         }),
+        Box::new(FirstTokens),
         Box::new(SpelledNumbers {
             n: cfg.n(20_000, 1_000_000),
         }),
